@@ -8,7 +8,7 @@ sub-harmonic variant), and J J^T is compared with an explicit discrete Fourier s
 import numpy as np
 
 from aomon.oracles import screen as so, vk
-from aomon.probes import ScriptedGenerator, unit_script
+from aomon.probes import ScriptedGenerator, unit_script, discover_shapes, unit_stream_script
 
 LEVEL = "exploration"
 TECHNIQUE = "unit-draw probing of the real generator through an injected numpy Generator (exact ensemble covariance) vs an explicit discrete Fourier sum; draw-request log monitor"
@@ -196,14 +196,13 @@ def ladder_rung(ctx, aotools, N, rungs):
     p0 = 0
     acc0 = 0.0
     accr = np.zeros(N)
-    shapes = [(N, N), (N, N)]
-    for which in (0, 1):
-        for idx in range(N * N):
-            g = ScriptedGenerator(unit_script(which, idx, shapes))
-            s = aotools.ft_phase_screen(r0, N, delta, L0, l0, seed=g)
-            ctx.count("probe_screens")
-            accr += s[0, 0] * s[0, :]
-            acc0 += s[0, 0] ** 2
+    shapes = discover_shapes(aotools.ft_phase_screen, r0, N, delta, L0, l0)
+    for pos in range(sum(int(np.prod(sh)) for sh in shapes)):
+        g = ScriptedGenerator(unit_stream_script(pos, shapes))
+        s = aotools.ft_phase_screen(r0, N, delta, L0, l0, seed=g)
+        ctx.count("probe_screens")
+        accr += s[0, 0] * s[0, :]
+        acc0 += s[0, 0] ** 2
     D = 2 * (acc0 - accr)
     lags = np.arange(N) * delta
     sel = (lags >= extent / 16) & (lags <= extent / 4)
